@@ -2,6 +2,7 @@ package distribution
 
 import (
 	"bytes"
+	"math/big"
 	"reflect"
 
 	sdk "github.com/cosmos/cosmos-sdk/types"
@@ -142,9 +143,14 @@ func (p Precompile) EmitWithdrawValidatorCommissionEvent(ctx sdk.Context, stateD
 		return err
 	}
 
-	// Prepare the event data
+	// Prepare the event data. The message server returns no coin at all when the accumulated commission is below one
+	// base unit (the remainder stays with the validator): the event then reports zero, as the native message does.
+	amount := new(big.Int)
+	if len(coins) > 0 {
+		amount = coins[0].Amount.BigInt()
+	}
 	var b bytes.Buffer
-	b.Write(cmn.PackNum(reflect.ValueOf(coins[0].Amount.BigInt())))
+	b.Write(cmn.PackNum(reflect.ValueOf(amount)))
 
 	stateDB.AddLog(&ethtypes.Log{
 		Address:     p.Address(),
